@@ -63,6 +63,8 @@ ALL_FEATURES = [
     "global_readers",       # globals that read other aggregate globals:  r :: comptime { p.a }
     "local_comptime_calls", # comptime blocks *inside recursive functions*, after the recursive call,
                             # that call other functions: as a constant, an array size, a type
+    "same_names",           # two definitions with the *same name* living in different files (they
+                            # stay in their files; everything else moves around them)
     "generic_twins",        # same-shaped functions calling one generic function with different
                             # type arguments; variants like to put them first in different files
     "struct_cast",          # a second struct with the same member names (other order, other int
@@ -92,6 +94,8 @@ class Program:
         self.status = 0
         self.features = []
         self.twins = []         # groups of same-shaped items (names)
+        self.pins = {}          # item name -> file index it must live in
+        self.public = {}        # item name -> the name it carries in the source text
 
     def add(self, item):
         self.items.append(item)
@@ -127,6 +131,8 @@ class Program:
         p = Program()
         p.status = self.status
         p.features = self.features
+        p.pins = {k: v for k, v in self.pins.items() if k not in names}
+        p.public = dict(self.public)
         p.twins = [[n for n in g if n not in names] for g in self.twins]
         p.twin_callee = getattr(self, "twin_callee", {})
         for it in self.items:
@@ -163,7 +169,13 @@ ALIASES = ["imp0", "imp1", "imp2"]
 
 
 def base_variant(prog):
-    return Variant([prog.names()])
+    pins = getattr(prog, "pins", {})
+    if not pins:
+        return Variant([prog.names()])
+    files = [[] for _ in range(max(pins.values()) + 1)]
+    for n in prog.names():
+        files[pins.get(n, 0)].append(n)
+    return Variant(files)
 
 
 def where_of(files):
@@ -172,20 +184,31 @@ def where_of(files):
 
 def random_variant(prog, rnd, max_files=3):
     names = prog.names()
+    pins = getattr(prog, "pins", {})
     nfiles = rnd.choice([1, 1, 2, 2, 3][: 2 * max_files - 1]) if max_files > 1 else 1
+    if pins:
+        nfiles = max(nfiles, max(pins.values()) + 1)
     files = [[] for _ in range(nfiles)]
     for n in names:
         it = prog.by_name[n]
-        if it.kind in ("main", "emit", "putchar"):
+        if n in pins:
+            files[pins[n]].append(n)    # same-named definitions never leave their file
+        elif it.kind in ("main", "emit", "putchar"):
             files[0].append(n)          # the entry point and its printer stay in the entry file
         else:
             files[rnd.randrange(nfiles)].append(n)
+    if pins:
+        # keep the file numbering stable: an empty file in the middle would renumber the pins
+        for f in files:
+            if not f:
+                f.append(None)
     files = [f for f in files if f] or [[]]
+    files = [[n for n in f if n is not None] for f in files]
     # a file that ended up empty disappears; the entry file is always files[0]
     for f in files:
         rnd.shuffle(f)
     twins = [g for g in getattr(prog, "twins", []) if len(g) >= 2]
-    if twins and len(files) >= 2 and rnd.random() < 0.5:
+    if twins and len(files) >= 2 and rnd.random() < 0.5 and not pins:
         # same-shaped definitions at the very top of different files: whatever the compiler
         # keys by position inside a file (arena indices) now coincides across files
         group = rnd.choice(twins)
@@ -267,6 +290,12 @@ def render(prog, variant):
                 decls_on_top.append(decl)
         chunks = decls_on_top + [c for c in chunks if c is not None]
         out[FILE_NAMES[fi]] = "\n\n".join(chunks) + "\n"
+    public = getattr(prog, "public", {})
+    if public:
+        import re as _re
+        pat = _re.compile(r"\b(%s)\b" % "|".join(sorted(public, key=len, reverse=True)))
+        for k in out:
+            out[k] = pat.sub(lambda m: public[m.group(1)], out[k])
     return out
 
 
@@ -1161,6 +1190,32 @@ class _Gen:
         for n in group:
             self.p.twin_callee[n] = g
 
+    def pick_same_names(self):
+        """give two items of the same sort one public name and pin them to different files"""
+        r = self.rnd
+        sorts = {}
+        for it in self.p.items:
+            if it.kind in ("fn", "const", "struct", "comptime", "generic") and it.name not in self.p.pins:
+                # twins and recursion groups keep their own names (their bodies name each other)
+                if any(it.name in g for g in self.p.twins):
+                    continue
+                sorts.setdefault(it.kind, []).append(it.name)
+        groups = [v for v in sorts.values() if len(v) >= 2]
+        r.shuffle(groups)
+        nfile = 1
+        for gi, names in enumerate(groups[:2]):
+            a, b = r.sample(names, 2)
+            # an item must not refer to its namesake (it could only name it through an alias, which
+            # is fine) - but then both would have to be in the same file for a local reference
+            if b in self.p.closure(a) or a in self.p.closure(b):
+                continue
+            pub = "shared%d" % gi
+            self.p.public[a] = pub
+            self.p.public[b] = pub
+            self.p.pins[a] = r.choice([0, 1])
+            self.p.pins[b] = 2 if self.p.pins[a] == 1 or r.random() < 0.5 else 1
+            nfile += 1
+
     def build(self):
         self.add_prelude()
         r = self.rnd
@@ -1224,6 +1279,8 @@ class _Gen:
             self.mk_local_ct_fn()
         if "generic_twins" in f and not self.p.twins:
             self.mk_generic_twins()
+        if "same_names" in f:
+            self.pick_same_names()
         main = Item("main", "main")
         main.is_function = True
         main.deps.add("emit")
